@@ -103,7 +103,31 @@ func c18Impl(in []int64) []int64 {
 	case 3:
 		n := int(in[1])
 		var g algz.Graph[int]
-		g.Init(n)
+		// lifecycle of the Graph object (the answer depends on the final graph only): fresh with Init, zero value
+		// without Init, or re-initialised after it held another, larger graph (Init with a small or a fitting capacity)
+		variant := 0
+		for _, x := range in {
+			variant += int(x&3) + 1
+		}
+		switch variant % 4 {
+		case 0:
+			g.Init(n)
+		case 1:
+		default:
+			g.Init(2)
+			for i := 0; i < n+3; i++ {
+				g.AddNode(100 + i)
+				g.AddUndirectedEdge(100+i, 100+(i+1)%(n+3))
+				if i < n {
+					g.AddUndirectedEdge(i, 100+i) // old edges at the vertices of the graph to come
+				}
+			}
+			if variant%4 == 2 {
+				g.Init(0)
+			} else {
+				g.Init(n)
+			}
+		}
 		for i := 0; i < n; i++ {
 			g.AddNode(i)
 		}
